@@ -41,10 +41,27 @@ class _OsProxy:
 
 @contextlib.contextmanager
 def file_order(mode='sorted'):
+    """Whatever name in aurel.reading's namespace is bound to the glob / os
+    module (or to glob.glob / os.listdir themselves) is rebound to a proxy
+    for the duration; a name that is not there (the code enumerates files
+    some other way) is left alone: the enumeration order is then the real
+    one - poorer coverage, never a wrong verdict."""
     from aurel import reading
-    old = reading.glob, reading.os
-    reading.glob, reading.os = _GlobProxy(mode), _OsProxy(mode)
+    saved = {}
+    for name, val in list(vars(reading).items()):
+        if val is _real_glob:
+            saved[name], new = val, _GlobProxy(mode)
+        elif val is _real_os:
+            saved[name], new = val, _OsProxy(mode)
+        elif val is _real_glob.glob:
+            saved[name], new = val, _GlobProxy(mode).glob
+        elif val is _real_os.listdir:
+            saved[name], new = val, _OsProxy(mode).listdir
+        else:
+            continue
+        setattr(reading, name, new)
     try:
         yield
     finally:
-        reading.glob, reading.os = old
+        for name, val in saved.items():
+            setattr(reading, name, val)
